@@ -305,6 +305,49 @@ def rescans_after_edit(rnd, acc, forced=None):
         trees.remove_tree(root)
 
 
+def back_to_back_variants(rnd, acc, forced=None):
+    """Several variants of one project - the same files and statements, but a module `P.n` of one variant is a plain name
+    of `P` in another (its file is absent there) - scanned DIRECTLY one after the other before any result is looked at,
+    once with all results kept and once with every second result dropped at once: what `from P import n` stands for must
+    be decided per scan."""
+    from .. import lazyscan
+
+    if forced:
+        variants, order = forced["variants"], forced["order"]
+    else:
+        base = trees.random_project(rnd, depth=3, imports_per_file=(1, 3), externals=0.0, name_imports=0.2, extras=False)
+        leafs = [f for f in base["files"] if f.endswith(".py") and not f.endswith("__init__.py") and "/" in f and all(p.isidentifier() for p in f[:-3].split("/"))]
+        if len(leafs) < 2:
+            return
+        picked = rnd.sample(leafs, min(len(leafs), rnd.randint(2, 4)))
+        others = [f for f in base["files"] if f.endswith(".py") and f not in picked]
+        for f in picked:  # make sure the statement in question exists, in a file that stays
+            parent, leaf = trees.mod_of("proj", f).rsplit(".", 1)
+            for imp in rnd.sample(others, min(len(others), 2)):
+                me = trees.mod_of("proj", imp)
+                if not (parent + ".").startswith(me + "."):
+                    base["files"][imp] = f"from {parent} import {leaf}\n" + base["files"][imp]
+        variants = []
+        for _ in range(3):
+            gone = set(rnd.sample(picked, rnd.randint(1, len(picked))))
+            variants.append({"root": "proj", "dirs": list(base["dirs"]), "files": {f: s for f, s in base["files"].items() if f not in gone}})
+        variants.append(base)
+        order = [rnd.randrange(len(variants)) for _ in range(8)]
+    case = {"kind": "back-to-back", "variants": variants, "order": order}
+    roots = [trees.write_tree(v) for v in variants]
+    try:
+        for keep in (True, False):
+            reqs = [((roots[i], roots[i]), {}, {"variant": i, "results_kept": keep}) for i in order]
+            ses = lazyscan.burst_scans(reqs, "C02", {"edge-missing": "C02", "edge-extra": "C02"}, acc, case, keep=keep)
+            for se in ses:
+                if se is not None:
+                    acc.evaluated(len(se.model.statements) if se.model else 0)
+        acc.count("bursts_of_back_to_back_scans")
+    finally:
+        for r in roots:
+            trees.remove_tree(r)
+
+
 def random_projects(spec, acc):
     rnd = random.Random(spec["seed"])
     for i in range(spec["n"]):
@@ -312,6 +355,8 @@ def random_projects(spec, acc):
             sibling_scans(rnd, acc)
         if i % 3 == 0:
             rescans_after_edit(rnd, acc)
+        if i % 6 == 1:
+            back_to_back_variants(rnd, acc)
         if i % 5 == 0:
             # the result of a scan is first used after the tree was removed / rewritten / the working directory changed
             from .. import lazyscan
@@ -404,6 +449,8 @@ def replay(case, acc):
         lazyscan.replay(case, acc, "C02", {"edge-missing": "C02", "edge-extra": "C02"})
     elif case["kind"] == "rescan-after-edit":
         rescans_after_edit(random.Random(0), acc, forced=case)
+    elif case["kind"] == "back-to-back":
+        back_to_back_variants(random.Random(0), acc, forced=case)
     else:
         HOSTILE_ONE = {case["name"]: case["spec"]["files"]["pk/imp.py"]}
         saved = dict(HOSTILE)
@@ -431,6 +478,8 @@ def floors(acc, tier):
         why.append("too few projects re-scanned with several level limits in one process")
     if acc.counters["scan_results_first_used_after_a_change"] < 20:
         why.append("too few scan results first used after the tree / the working directory changed")
+    if acc.counters["scans_judged_after_a_burst_of_back_to_back_scans"] < 100:
+        why.append("too few scans judged after a burst of back-to-back scans")
     if acc.counters["scans_judged"] < 20:
         why.append("too few scans judged by the monitor")
     for f in FORMS:
